@@ -56,8 +56,10 @@ def instant_obs(p, y, mo, d, ms):
     dt = datetime.datetime(y, mo, d) + datetime.timedelta(milliseconds=ms)
     p.set_variable('vd', dt)
     p.set_variable('ve', dt + datetime.timedelta(milliseconds=1))
+    p.set_variable('vn', (datetime.datetime(y, mo, d) - EPOCH).days)      # the whole part, as an integer on the left
     return {'kind': 'instant', 'in': {'y': y, 'mo': mo, 'd': d, 'ms': ms},
-            'out': value_of(p, '{vd+0,DATEVALUE(vd),DATEVALUE(ve),DATEVALUE(vd)<DATEVALUE(ve),INT(DATEVALUE(vd))}')}
+            'out': value_of(p, '{vd+0,DATEVALUE(vd),DATEVALUE(ve),DATEVALUE(vd)<DATEVALUE(ve),INT(DATEVALUE(vd)),'
+                               'vn<=vd,vn=vd,vn<vd,vn+1>vd,vd>=vn,vd<ve,ve>vd,N(vd)=DATEVALUE(vd),DAYS(ve,vd)>0}')}
 
 
 def time_obs(p, h, m, s):
